@@ -1,14 +1,21 @@
-"""C04 - see core_mod.SPEC['C04'] (generators, projections) and core_props.oracle_c04 (spec on the implementation)."""
+"""C04 - see core_mod.SPEC['C04'] (generators, projections) and core_props.oracle_c04 (spec on the implementation);
+nested Values (handlers returning self.fire(..)): c04_values (model CV.VT, machine valuetree)."""
 import core_mod
+import c04_values
 
 
 def run(ctx):
     core_mod.run(ctx, 'C04')
+    c04_values.run(ctx)
 
 
 def search(ctx):
     core_mod.run(ctx, 'C04')
+    c04_values.run(ctx)
 
 
 def replay(ctx, case):
-    core_mod.replay(ctx, 'C04', case)
+    if c04_values.handles(case):
+        c04_values.replay(ctx, case)
+    else:
+        core_mod.replay(ctx, 'C04', case)
